@@ -1,2 +1,65 @@
-From Cmr Require Import Base Det SpModel.
-Theorem placeholder_C08 : True. Proof. exact I. Qed.
+(* Properties_C08.v — C08: series-parallel test: verdict, reductions, reduced matrix exact.
+   Statements closed by `exact`; proofs in SpProofs.v. *)
+From Cmr Require Import Base Det BaseProofs SpModel SpProofs.
+Local Open Scope Z_scope.
+
+(* SP-reducibility is hereditary: every sub-configuration (fewer live rows / columns) of a configuration that reduces
+   to the empty matrix reduces to the empty matrix.  All sizes, ternary and binary reductions. *)
+Theorem C08_SP_hereditary : forall ternary M lr lc lr' lc',
+  length lr' = length lr -> length lc' = length lc -> sub_mask lr' lr -> sub_mask lc' lc ->
+  SPred ternary M (lr, lc) -> SPred ternary M (lr', lc').
+Proof. exact SP_hereditary. Qed.
+Print Assumptions C08_SP_hereditary.
+
+(* hence a non-empty irreducible sub-configuration refutes SP-reducibility: "no" answers are certified *)
+Theorem C08_irreducible_witness : forall ternary M lr lc lr' lc',
+  sub_mask lr' lr -> sub_mask lc' lc ->
+  irreducible ternary M lr' lc' = true -> is_empty lr' lc' = false -> ~ SPred ternary M (lr, lc).
+Proof. exact SP_witness_gen. Qed.
+Print Assumptions C08_irreducible_witness.
+
+(* the greedy oracle decides the definition (reducible to the empty matrix by zero / unit / copy removals) *)
+Theorem C08_oracle_is_definition : forall ternary m n M,
+  sp_greedy ternary m n M = true <-> SPred ternary M (all_true m, all_true n).
+Proof. exact sp_greedy_correct. Qed.
+Print Assumptions C08_oracle_is_definition.
+
+(* certificate theorem, any size: reported reductions that are genuine one after another, followed by an irreducible
+   remainder, decide the verdict: the remainder is empty iff the matrix is series-parallel *)
+Theorem C08_certificate_decides : forall ternary M m n reds lr' lc',
+  apply_reds ternary M (all_true m) (all_true n) reds = Some (lr', lc') ->
+  irreducible ternary M lr' lc' = true ->
+  (is_empty lr' lc' = true <-> SPred ternary M (all_true m, all_true n)).
+Proof. exact cert_verdict. Qed.
+Print Assumptions C08_certificate_decides.
+
+(* every accepted reduction is a genuine zero / unit / copy removal of the current configuration *)
+Theorem C08_reduction_genuine : forall ternary M lr lc e mate,
+  red_valid ternary M lr lc e mate = true -> sp_step ternary M (lr, lc) (remove_elem lr lc e).
+Proof. exact red_valid_step. Qed.
+Print Assumptions C08_reduction_genuine.
+
+(* whenever the judge accepts an in-domain record of CMRspTest* / CMRspDecompose* (no bound on the number of
+   reductions): the call succeeded; a requested verdict flag was written and is right; requested reductions are genuine in
+   order, counted correctly, leave an irreducible remainder, and that remainder is empty iff the matrix is SP *)
+Theorem C08_judge_sound : forall rec tern api maxred wv wr wd wviol ws m n M rc v nred reds reduced viol sepa rest,
+  sp_input rec = Some ((tern, api, maxred, (wv, wr, wd, wviol, ws), (m, n, M), rc, v, nred, reds, reduced, viol, sepa), rest) ->
+  sp_domain tern M = true -> maxred < 0 ->
+  judge_sp rec = 0 ->
+  rc = 0 /\
+  (wv = true -> (v = 0 \/ v = 1) /\ (v = 1 <-> SPred tern M (all_true m, all_true n))) /\
+  (wr = true ->
+     exists lr lc,
+       apply_reds tern M (all_true m) (all_true n)
+                  (map (fun p => (elem_of_Z (fst p), elem_of_Z (snd p))) reds) = Some (lr, lc) /\
+       nred = Z.of_nat (length reds) /\
+       irreducible tern M lr lc = true /\
+       (is_empty lr lc = true <-> SPred tern M (all_true m, all_true n))).
+Proof. exact judge_sp_sound. Qed.
+Print Assumptions C08_judge_sound.
+
+Example C08_nonvacuous :
+  sp_greedy true 3 3 [[1;1;0];[1;0;1];[0;1;1]] = false /\ sp_greedy true 2 2 [[1;-1];[-1;1]] = true /\
+  apply_reds true [[1;-1];[-1;1]] (all_true 2) (all_true 2)
+    [(ERow 0, ERow 1); (ECol 0, ECol 1); (ERow 1, ECol 1); (ECol 1, ENone)] = Some ([false;false],[false;false]).
+Proof. repeat split; vm_compute; reflexivity. Qed.
